@@ -27,8 +27,8 @@ func init() {
 		Floor:         floor,
 		MinNontrivial: 50,
 		Phases: []fw.Phase{
-			{Name: "plain", N: func(t fw.Tier) int { return pick(t, 3000, 200000) }, Run: c11Plain},
-			{Name: "faults", N: func(t fw.Tier) int { return pick(t, 600, 40000) }, Run: c11Faults},
+			{Name: "plain", N: func(t fw.Tier) int { return pick(t, 10000, 300000) }, Run: c11Plain},
+			{Name: "faults", N: func(t fw.Tier) int { return pick(t, 2000, 60000) }, Run: c11Faults},
 		},
 		Witness: sqlWitness,
 	})
